@@ -164,12 +164,195 @@ theorem critLeafAt_updStatus (f : Forest) (q : List Nat) (s : TStatus) :
     | 0 :: rest' => simp only [critLeafAt]
     | (j + 1) :: rest' => simp only [critLeafAt]; exact ih (j :: rest')
 
+/-! ### what aggregation never reads -/
+
+/-- Forget what state aggregation never reads: the state of non-critical leaves and every status. -/
+def critView : Forest → Forest
+  | .nil => .nil
+  | .leaf c crit st _ next => .leaf c crit (if crit then st else .UNKNOWN) .UNDEFINED (critView next)
+  | .agg st _ kids next => .agg st .UNDEFINED (critView kids) (critView next)
+
+theorem aggStateFrom_view (acc : TState) (f g : Forest) (h : critView f = critView g) :
+    aggStateFrom acc f = aggStateFrom acc g := by
+  induction f generalizing acc g with
+  | nil => cases g <;> simp [critView] at h; rfl
+  | leaf c crit st su next ih =>
+    cases g with
+    | nil => simp [critView] at h
+    | agg => simp [critView] at h
+    | leaf c' crit' st' su' next' =>
+      simp only [critView, Forest.leaf.injEq] at h
+      obtain ⟨_, hc, hst, _, hn⟩ := h
+      subst hc
+      cases crit
+      · simp only [aggStateFrom]; exact ih _ _ hn
+      · simp at hst; subst hst
+        simp only [aggStateFrom, if_true]; exact ih _ _ hn
+  | agg st su kids next ihk ihn =>
+    cases g with
+    | nil => simp [critView] at h
+    | leaf => simp [critView] at h
+    | agg st' su' kids' next' =>
+      simp only [critView, Forest.agg.injEq] at h
+      obtain ⟨hst, _, _, hn⟩ := h
+      subst hst
+      simp only [aggStateFrom]; exact ihn _ _ hn
+
+theorem mergeState_view (st v : TState) (f g : Forest) (h : critView f = critView g) :
+    mergeState st v f = mergeState st v g := by
+  unfold mergeState aggregateState
+  rw [aggStateFrom_view _ f g h]
+
+theorem updState_view (f : Forest) (p : List Nat) (s : TState) :
+    ∀ g, critView f = critView g →
+      (updState f p s).2 = (updState g p s).2 ∧ critView (updState f p s).1 = critView (updState g p s).1 := by
+  fun_induction updState f p s with
+  | case1 p s =>
+    intro g h
+    cases g <;> simp [critView] at h
+    simp [updState, critView]
+  | case2 f hf =>
+    intro g h
+    cases g <;> simp [updState, h]
+  | case3 c crit st su next s =>
+    intro g h
+    cases g with
+    | nil => simp [critView] at h
+    | agg => simp [critView] at h
+    | leaf c' crit' st' su' next' =>
+      simp only [critView, Forest.leaf.injEq] at h
+      obtain ⟨hc0, hc, hst, _, hn⟩ := h
+      subst hc0 hc
+      simp [updState, critView, hn]
+  | case4 c crit st su next x y s =>
+    intro g h
+    cases g with
+    | nil => simp [critView] at h
+    | agg => simp [critView] at h
+    | leaf c' crit' st' su' next' =>
+      simp [updState, h]
+  | case5 c crit st su next i rest s r ih =>
+    intro g h
+    cases g with
+    | nil => simp [critView] at h
+    | agg => simp [critView] at h
+    | leaf c' crit' st' su' next' =>
+      simp only [critView, Forest.leaf.injEq] at h
+      obtain ⟨hc0, hc, hst, _, hn⟩ := h
+      subst hc0 hc
+      obtain ⟨h1, h2⟩ := ih next' hn
+      have h2' : critView r.1 = critView (updState next' (i :: rest) s).1 := h2
+      simp only [updState, critView]
+      exact ⟨h1, by rw [h2', hst]⟩
+  | case6 st su kids next rest s r hnone ih =>
+    intro g h
+    cases g with
+    | nil => simp [critView] at h
+    | leaf => simp [critView] at h
+    | agg st' su' kids' next' =>
+      simp only [critView, Forest.agg.injEq] at h
+      obtain ⟨hst, _, hk, hn⟩ := h
+      subst hst
+      obtain ⟨h1, h2⟩ := ih kids' hk
+      have : (updState kids' rest s).2 = none := by rw [← h1]; exact hnone
+      have h2' : critView r.1 = critView (updState kids' rest s).1 := h2
+      simp only [updState, this, critView]
+      exact ⟨trivial, by rw [h2', hn]⟩
+  | case7 st su kids next rest s r v hsome st' ih =>
+    intro g h
+    cases g with
+    | nil => simp [critView] at h
+    | leaf => simp [critView] at h
+    | agg st2 su2 kids2 next2 =>
+      simp only [critView, Forest.agg.injEq] at h
+      obtain ⟨hst, _, hk, hn⟩ := h
+      subst hst
+      obtain ⟨h1, h2⟩ := ih kids2 hk
+      have hs2 : (updState kids2 rest s).2 = some v := by rw [← h1]; exact hsome
+      have h2' : critView r.1 = critView (updState kids2 rest s).1 := h2
+      have hm : mergeState st v r.1 = mergeState st v (updState kids2 rest s).1 := mergeState_view _ _ _ _ h2'
+      simp only [updState, hs2, critView, st']
+      exact ⟨by rw [hm], by rw [h2', hn, hm]⟩
+  | case8 st su kids next i rest s r ih =>
+    intro g h
+    cases g with
+    | nil => simp [critView] at h
+    | leaf => simp [critView] at h
+    | agg st2 su2 kids2 next2 =>
+      simp only [critView, Forest.agg.injEq] at h
+      obtain ⟨hst, _, hk, hn⟩ := h
+      subst hst
+      obtain ⟨h1, h2⟩ := ih next2 hn
+      have h2' : critView r.1 = critView (updState next2 (i :: rest) s).1 := h2
+      simp only [updState, critView]
+      exact ⟨h1, by rw [h2', hk]⟩
+
+
+theorem critView_updStatus (f : Forest) (p : List Nat) (s : TStatus) :
+    critView (updStatus f p s).1 = critView f := by
+  fun_induction updStatus f p s with
+  | case1 => rfl
+  | case2 => rfl
+  | case3 => simp [critView]
+  | case4 => rfl
+  | case5 c crit st su next i rest s r ih =>
+    have ih' : critView r.1 = critView next := ih
+    simp only [critView, ih']
+  | case6 st su kids next rest s r hnone ih =>
+    have ih' : critView r.1 = critView kids := ih
+    simp only [critView, ih']
+  | case7 st su kids next rest s r v hsome su' ih =>
+    have ih' : critView r.1 = critView kids := ih
+    simp only [critView, ih']
+  | case8 st su kids next i rest s r ih =>
+    have ih' : critView r.1 = critView next := ih
+    simp only [critView, ih']
+
+theorem critView_updState_plain (f : Forest) (p : List Nat) (s : TState) (h : plainLeafAt f p = true) :
+    critView (updState f p s).1 = critView f := by
+  fun_induction updState f p s with
+  | case1 => rfl
+  | case2 => rfl
+  | case3 c crit st su next s => simp [plainLeafAt] at h; simp [critView, h]
+  | case4 => rfl
+  | case5 c crit st su next i rest s r ih =>
+    simp only [plainLeafAt] at h
+    have ih' : critView r.1 = critView next := ih h
+    simp only [critView, ih']
+  | case6 st su kids next rest s r hnone ih =>
+    simp only [plainLeafAt] at h
+    have ih' : critView r.1 = critView kids := ih h
+    simp only [critView, ih']
+  | case7 st su kids next rest s r v hsome st' ih =>
+    simp only [plainLeafAt] at h
+    have : r.2 = none := updState_plain_none kids rest s h
+    rw [this] at hsome; cases hsome
+  | case8 st su kids next i rest s r ih =>
+    simp only [plainLeafAt] at h
+    have ih' : critView r.1 = critView next := ih h
+    simp only [critView, ih']
+
+/-- The notifications a sequence of task-state updates sends towards the watcher. -/
+def notifs : Forest → List (List Nat × TState) → List (Option TState)
+  | _, [] => []
+  | f, (p, v) :: us => (updState f p v).2 :: notifs (updState f p v).1 us
+
+theorem notifs_view (f g : Forest) (us : List (List Nat × TState)) (h : critView f = critView g) :
+    notifs f us = notifs g us := by
+  induction us generalizing f g with
+  | nil => rfl
+  | cons u us ih =>
+    obtain ⟨p, v⟩ := u
+    obtain ⟨h1, h2⟩ := updState_view f p v g h
+    simp only [notifs, h1]
+    rw [ih _ _ h2]
+
 /-! ### notify / setLeaf frame lemmas -/
 
 theorem notify_frame (s : Sys) (v : Option TState) (r : Bool) :
     (notify s v r).env = s.env ∧ (notify s v r).f = s.f ∧ (notify s v r).inflight = s.inflight ∧
     (notify s v r).stopReq = s.stopReq ∧ (notify s v r).hooks = s.hooks ∧ (notify s v r).log = s.log ∧
-    (notify s v r).roleOnly = s.roleOnly := by
+    (notify s v r).roleOnly = s.roleOnly ∧ (notify s v r).updq = s.updq := by
   unfold notify
   repeat' split
   all_goals simp
@@ -198,11 +381,12 @@ theorem notify_none (s : Sys) (r : Bool) : notify s none r = s := by
 
 theorem setLeaf_frame (s : Sys) (p : List Nat) (v : TState) (r : Bool) :
     (setLeaf s p v r).env = s.env ∧ (setLeaf s p v r).inflight = s.inflight ∧
-    (setLeaf s p v r).stopReq = s.stopReq ∧ (setLeaf s p v r).hooks = s.hooks ∧ (setLeaf s p v r).log = s.log := by
+    (setLeaf s p v r).stopReq = s.stopReq ∧ (setLeaf s p v r).hooks = s.hooks ∧ (setLeaf s p v r).log = s.log ∧
+    (setLeaf s p v r).updq = s.updq := by
   unfold setLeaf
   simp only
-  obtain ⟨h1, _, h3, h4, h5, h6, _⟩ := notify_frame { s with f := (updState s.f p v).1, roleOnly := s.roleOnly.filter (fun x => x.1 != p) } (updState s.f p v).2 r
-  exact ⟨h1, h3, h4, h5, h6⟩
+  obtain ⟨h1, _, h3, h4, h5, h6, _, h8⟩ := notify_frame { s with f := (updState s.f p v).1, roleOnly := s.roleOnly.filter (fun x => x.1 != p) } (updState s.f p v).2 r
+  exact ⟨h1, h3, h4, h5, h6, h8⟩
 
 theorem setLeaf_w_not_parked (s : Sys) (p : List Nat) (v : TState) (r : Bool) (h : s.w ≠ .parked) :
     (setLeaf s p v r).w = s.w := by
@@ -218,15 +402,16 @@ theorem setLeaf_weight_le (s : Sys) (p : List Nat) (v : TState) (r : Bool) :
 
 theorem setLeaves_frame (s : Sys) (ps : List (List Nat)) (v : TState) (r : Bool) :
     (setLeaves s ps v r).env = s.env ∧ (setLeaves s ps v r).inflight = s.inflight ∧
-    (setLeaves s ps v r).stopReq = s.stopReq ∧ (setLeaves s ps v r).hooks = s.hooks ∧ (setLeaves s ps v r).log = s.log := by
+    (setLeaves s ps v r).stopReq = s.stopReq ∧ (setLeaves s ps v r).hooks = s.hooks ∧ (setLeaves s ps v r).log = s.log ∧
+    (setLeaves s ps v r).updq = s.updq := by
   unfold setLeaves
   induction ps generalizing s with
   | nil => simp
   | cons p ps ih =>
     simp only [List.foldl_cons]
-    obtain ⟨a1, a2, a3, a4, a5⟩ := ih (setLeaf s p v r)
-    obtain ⟨b1, b2, b3, b4, b5⟩ := setLeaf_frame s p v r
-    exact ⟨a1.trans b1, a2.trans b2, a3.trans b3, a4.trans b4, a5.trans b5⟩
+    obtain ⟨a1, a2, a3, a4, a5, a6⟩ := ih (setLeaf s p v r)
+    obtain ⟨b1, b2, b3, b4, b5, b6⟩ := setLeaf_frame s p v r
+    exact ⟨a1.trans b1, a2.trans b2, a3.trans b3, a4.trans b4, a5.trans b5, a6.trans b6⟩
 
 theorem setLeaves_w_not_parked (s : Sys) (ps : List (List Nat)) (v : TState) (r : Bool) (h : s.w ≠ .parked) :
     (setLeaves s ps v r).w = s.w := by
@@ -274,10 +459,10 @@ theorem goError_ok_st (hooks : List Hook) (env : Env) (b r : Bool)
 
 theorem timerStep_spec (s : Sys) :
     (timerStep s).env.st = .ERROR ∧ (timerStep s).w = .gone ∧ (timerStep s).inflight = s.inflight ∧
-    (timerStep s).stopReq = s.stopReq := by
+    (timerStep s).stopReq = s.stopReq ∧ (timerStep s).updq = s.updq := by
   unfold timerStep
   simp only
-  refine ⟨?_, ?_, ?_, ?_⟩
+  refine ⟨?_, ?_, ?_, ?_, ?_⟩
   · rw [(setLeaves_frame _ _ _ _).1]
     simp only
     split
@@ -288,35 +473,40 @@ theorem timerStep_spec (s : Sys) :
   · rw [setLeaves_w_not_parked _ _ _ _ (by simp)]
   · rw [(setLeaves_frame _ _ _ _).2.1]
   · rw [(setLeaves_frame _ _ _ _).2.2.1]
+  · rw [(setLeaves_frame _ _ _ _).2.2.2.2.2]
 
 theorem devStopStep_frame (s : Sys) (ok r : Bool) :
     (devStopStep s ok r).env = (tryTransition s.env s.hooks .STOP_ACTIVITY ok false).1 ∧
     (devStopStep s ok r).inflight = s.inflight ∧ (devStopStep s ok r).stopReq = s.stopReq - 1 ∧
-    (devStopStep s ok r).w.weight ≤ s.w.weight ∧ (s.w ≠ .parked → (devStopStep s ok r).w = s.w) := by
+    (devStopStep s ok r).w.weight ≤ s.w.weight ∧ (s.w ≠ .parked → (devStopStep s ok r).w = s.w) ∧
+    (devStopStep s ok r).updq = s.updq := by
   unfold devStopStep
   simp only
   split
   · split
-    · refine ⟨?_, ?_, ?_, ?_, ?_⟩
+    · refine ⟨?_, ?_, ?_, ?_, ?_, ?_⟩
       · rw [(setLeaves_frame _ _ _ _).1]
       · rw [(setLeaves_frame _ _ _ _).2.1]
       · rw [(setLeaves_frame _ _ _ _).2.2.1]
       · exact setLeaves_weight_le _ _ _ _
       · intro h; exact setLeaves_w_not_parked _ _ _ _ h
-    · exact ⟨rfl, rfl, rfl, Nat.le_refl _, fun _ => rfl⟩
-  · exact ⟨rfl, rfl, rfl, Nat.le_refl _, fun _ => rfl⟩
+      · rw [(setLeaves_frame _ _ _ _).2.2.2.2.2]
+    · exact ⟨rfl, rfl, rfl, Nat.le_refl _, fun _ => rfl, rfl⟩
+  · exact ⟨rfl, rfl, rfl, Nat.le_refl _, fun _ => rfl, rfl⟩
 
 /-- What the fail step leaves alone. -/
 theorem failOne_frame (k : Kind) (s : Sys) (p : List Nat) (r : Bool) :
     (failOne k s p r).env = s.env ∧ (failOne k s p r).inflight = s.inflight ∧ (failOne k s p r).hooks = s.hooks ∧
-    (failOne k s p r).stopReq = s.stopReq + (if (effect k s.env.st).stop then 1 else 0) := by
+    (failOne k s p r).stopReq = s.stopReq + (if (effect k s.env.st).stop then 1 else 0) ∧
+    (failOne k s p r).updq = s.updq := by
   unfold failOne
   simp only
-  refine ⟨?_, ?_, ?_, ?_⟩
+  refine ⟨?_, ?_, ?_, ?_, ?_⟩
   · rw [(notify_frame _ _ _).1]
   · rw [(notify_frame _ _ _).2.2.1]
   · rw [(notify_frame _ _ _).2.2.2.2.1]
   · rw [(notify_frame _ _ _).2.2.2.1]
+  · rw [(notify_frame _ _ _).2.2.2.2.2.2.2]
 
 
 /-- The fail step keeps the shape of the tree. -/
